@@ -23,7 +23,7 @@ LEVEL_RULE = (
 EXHAUSTIVE_SUBDOMAINS = ["every NL band 1..59 x hemisphere x newer parity (directed)"]
 ASSUMPTIONS = ["positions whose recovered latitude is within 1e-9 deg of an NL transition are ambiguous, not judged",
                "receiver latitude clamped to [-90,90]; equal timestamps accept either frame"]
-REQUIRED = ["receiver_44.5_to_45_degrees_of_longitude_away", "value_result", "datetime_ts", "aware_datetime_ts", "dst_change_ts", "datetime_ts_at_the_ends_of_the_range", "reference_is_previous_fix", "no_ref_rejected", "rx_other_hemisphere", "rx_lat_zero", "rx_across_antimeridian",
+REQUIRED = ["receiver_44.5_to_45_degrees_of_longitude_away", "value_result", "datetime_ts", "aware_datetime_ts", "dst_change_ts", "datetime_ts_at_the_ends_of_the_range", "receiver_location_as_float32_scalars", "reference_is_previous_fix", "no_ref_rejected", "rx_other_hemisphere", "rx_lat_zero", "rx_across_antimeridian",
             "rx_across_greenwich", "newer_even", "newer_odd", "target_south", "target_west"] + \
            ["band%d" % nl for nl in range(1, 60)]
 
@@ -45,6 +45,15 @@ def m_surface(ctx, case):
     (m0, rl0), (m1, rl1) = build(case)
     te, to = case["te"], case["to"]
     rxlat, rxlon = case["rx"]
+    rxlat_arg, rxlon_arg = rxlat, rxlon
+    if isinstance(case["addr"], int) and case["addr"] % 5 == 2 and isinstance(rxlat, float) and isinstance(rxlon, float):
+        # the receiver location as single-precision numpy scalars (a site table read from a float32 column): the receiver then IS
+        # at the float32 value - the model uses exactly that position
+        import numpy as _np
+        if abs(float(_np.float32(rxlat))) <= 90.0:
+            rxlat_arg, rxlon_arg = _np.float32(rxlat), _np.float32(rxlon)
+            rxlat, rxlon = float(rxlat_arg), float(rxlon_arg)      # the model computes in double precision with the exact values
+            ctx.hit("receiver_location_as_float32_scalars")
     key_w = "cprNL-window-above-87" if any(87.0 < abs(x) <= WINDOW_HI for x in (rl0, rl1)) else None
     # premise of the property: receiver within 45 NM and less than 45 deg of longitude from the target
     for (plat_, plon_) in (case["p0"], case["p1"]):
@@ -89,10 +98,10 @@ def m_surface(ctx, case):
         ctx.hit("datetime_ts")
     else:
         T0, T1 = te, to
-    r = call(fn, m0, m1, T0, T1, rxlat, rxlon)
+    r = call(fn, m0, m1, T0, T1, rxlat_arg, rxlon_arg)
     ctx.ev()
     if case["api"] == "position":
-        r2 = call(adsb.position, m1, m0, T1, T0, rxlat, rxlon)  # documented order is (even, odd); position() is not
+        r2 = call(adsb.position, m1, m0, T1, T0, rxlat_arg, rxlon_arg)  # documented order is (even, odd); position() is not
         ctx.ev()                                                # required to swap surface frames: only no-crash is judged
         if r2[0] == "exc" and r2[1] != "RuntimeError":
             ctx.violation("surface-decode-raises", frames=[m1, m0], observed=r2)
